@@ -149,6 +149,10 @@ class Flow:
         frf = self.env.get(node.func.id) if isinstance(node.func, ast.Name) else None
         if isinstance(node.func, ast.Subscript):
             frf = self.expr(node.func)          # a callable picked out of a sequence: item[3](value)
+        if name == 'searchsorted' and recv_rf is not None:
+            # the method spelling is the function spelling with the array first (as in Conv.call)
+            args = [recv_rf] + list(args)
+            recv_rf = None
         self.ev('call', node, name=name, recv=recv, args=args, kw=dict(kw),
                 fn=dotted(node.func), recv_rf=recv_rf, func_rf=frf if isinstance(frf, RF) else None)
         return self._inline(node, name, recv, args, kw)
